@@ -26,9 +26,18 @@
               the numpy object (C / Fortran / strided view) is not part of the value,
             - the container kind must be the right one (a set is not a list, a Struct is not a dict).
 
-   Not in the universe (stated in the evidence): locus and interval<locus> (need a reference genome, i.e. a
-   backend), numpy scalars / pandas NA as leaf values, lone surrogates in strings, calls of ploidy > 2,
-   struct fields that hail.utils.Struct cannot hold (a field called "self").
+   LOCI (second build: the whole `hail` package imports offline, a ReferenceGenome can be built with _builtin=True
+   and registered through the real Backend.add_reference, see checks/_typedvalues.py): the type  locus<rg>  is a
+   LEAF type of its own kind (not a primitive: its values have structure).  A locus value is
+   [c |-> "loc", contig |-> symbolic contig name, pos |-> the position, a TLA+ integer]; the genome of the universe
+   (Contigs / ContigLen below) has a contig whose name needs no escaping, one whose name has a quote, a backslash,
+   a space, a latin-1 and an astral character (Python length # UTF-8 length), and one of length 1 (first = last
+   position).  Equality: same genome (the one of the TYPE - hail.genetics.Locus carries its genome), same contig,
+   same position.
+
+   Not in the universe (stated in the evidence): numpy scalars / pandas NA as leaf values, lone surrogates in
+   strings, calls of ploidy > 2, struct fields that hail.utils.Struct cannot hold (a field called "self"), loci
+   outside their contig (hail.genetics.Locus does not validate positions).
 
    The module is evaluated by TLC in three ways:
      TypedValuesSelf     ASSUME SelfCheck   the equality is reflexive on the universe and separates distinct
@@ -55,7 +64,11 @@ TNd(e, n)       == [k |-> "ndarray", e |-> e, n |-> n]            \* e: a numeri
 \* empty, and the names the JSON wire form itself uses for dict entries / intervals)
 FieldNames == {"a", "b", "sp", "uni", "num", "empty", "key", "value", "start"}
 
-Kids(t) == CASE t.k \in Prims               -> <<>>
+TLoc(g)         == [k |-> "locus", rg |-> g]                      \* g: reference-genome symbol
+Genomes == {"vrg"}                                                \* the genome the harness registers for the universe
+Leafs   == Prims \cup {"locus"}                                   \* types without component types
+
+Kids(t) == CASE t.k \in Leafs               -> <<>>
              [] t.k \in {"array", "set"}    -> <<t.e>>
              [] t.k = "dict"                -> <<t.key, t.val>>
              [] t.k \in {"tuple", "struct"} -> t.ts
@@ -64,7 +77,7 @@ Kids(t) == CASE t.k \in Prims               -> <<>>
 
 MaxOf(S) == CHOOSE x \in S : \A y \in S : y <= x
 RECURSIVE Depth(_)
-Depth(t) == IF t.k \in Prims THEN 0
+Depth(t) == IF t.k \in Leafs THEN 0
             ELSE 1 + MaxOf({0} \cup {Depth(Kids(t)[i]) : i \in 1 .. Len(Kids(t))})
 RECURSIVE HasNd(_)
 HasNd(t) == t.k = "ndarray" \/ \E i \in 1 .. Len(Kids(t)) : HasNd(Kids(t)[i])
@@ -78,6 +91,7 @@ RECURSIVE IsType(_)
 IsType(t) ==
   /\ "k" \in DOMAIN t
   /\ CASE t.k \in Prims    -> DOMAIN t = {"k"}
+       [] t.k = "locus"    -> DOMAIN t = {"k", "rg"} /\ t.rg \in Genomes
        [] t.k = "array"    -> DOMAIN t = {"k", "e"} /\ IsType(t.e)
        [] t.k = "set"      -> DOMAIN t = {"k", "e"} /\ IsType(t.e) /\ Hashable(t.e)
        [] t.k = "dict"     -> DOMAIN t = {"k", "key", "val"} /\ IsType(t.key) /\ IsType(t.val) /\ Hashable(t.key)
@@ -101,18 +115,31 @@ VTup(xs)         == [c |-> "tup", xs |-> xs]
 VStruct(ns, xs)  == [c |-> "struct", ns |-> ns, xs |-> xs]
 VIv(s, e, i, j)  == [c |-> "iv", s |-> s, e |-> e, is |-> i, ie |-> j]
 VNd(sh, ord, xs) == [c |-> "nd", shape |-> sh, ord |-> ord, xs |-> xs]   \* xs: leaves in row-major (logical) order
+VLoc(cn, p)      == [c |-> "loc", contig |-> cn, pos |-> p]        \* hail.genetics.Locus(contig, position, genome of the type)
+
+\* the reference genome "vrg" of the universe: contig symbols (the harness owns symbol <-> name: "1",
+\* c"\ <e-acute><U+1F600>, "MT") and their lengths; positions are 1-based, 1 .. length
+Contigs == {"c1", "cx", "cm"}
+ContigLen(cn) == CASE cn = "c1" -> 249250621 [] cn = "cx" -> 300 [] cn = "cm" -> 1
+\* first and last position of every contig, two interior positions whose int32 needs a second byte
+LocFull == {VLoc(cn, 1) : cn \in Contigs} \cup {VLoc(cn, ContigLen(cn)) : cn \in Contigs} \cup {VLoc("c1", 256), VLoc("cx", 128)}
+LocRep  == {VLoc("cx", 300), VLoc("c1", 1)}
 
 \* leaves: every name of Full(k) is a Python value that hail's own _typecheck accepts for the type
 I32 == {"i32min", "negtwo", "neg1", "zero", "one", "two", "i127", "i128", "i255", "i256", "i65536", "i32max"}
 Full(k) ==
   CASE k = "int32"   -> I32
     [] k = "int64"   -> I32 \cup {"i32maxp1", "i32minm1", "p53p1", "i64min", "i64max"}
+    \* d0.1 = 0.1, d3rd = 1/3 (doubles that are NOT float32 values), s0.1 / s3rd = the float32 nearest to them (their
+    \* shortest float64 text, 0.10000000149011612 / 0.3333333432674408, is not the float32 text), f16m1 = 2^24 + 1
+    \* (an integer-valued double that float32 rounds to f16m = 2^24)
     [] k = "float32" -> {"nan", "pinf", "ninf", "zero", "negzero", "one", "int1", "f1.5", "neg2.5", "d0.1", "s0.1",
-                         "f32max", "f32tiny"}
+                         "f32max", "f32tiny", "d3rd", "s3rd", "f16m1", "f16m"}
     [] k = "float64" -> {"nan", "pinf", "ninf", "zero", "negzero", "one", "int1", "f1.5", "neg2.5", "d0.1", "s0.1",
-                         "f32max", "f32tiny", "f64max", "f64tiny", "p53p1f"}
+                         "f32max", "f32tiny", "f64max", "f64tiny", "p53p1f", "d3rd", "s3rd", "f16m1", "f16m"}
     [] k = "bool"    -> {"true", "false"}
-    [] k = "str"     -> {"empty", "ascii", "nonascii", "escapes", "digits", "calllike"}
+    \* astralnul = U+10000 NUL U+10FFFF: only non-BMP characters around an embedded NUL (3 code points, 9 UTF-8 bytes)
+    [] k = "str"     -> {"empty", "ascii", "nonascii", "escapes", "digits", "calllike", "astralnul"}
     [] k = "call"    -> {"c_", "c_p", "c0", "c2p", "c00", "c01", "c12", "c01p", "c10p", "c11p", "cbig", "cbigp"}
 \* two representatives used where a value is nested below the position under scrutiny; no two of them are
 \* equal in Python (sets, dict keys)
@@ -127,8 +154,8 @@ Rep(k) ==
 
 \* the number a float leaf stands for: a Python int 1 given as a float value is the float 1.0
 Canon(x) == IF x = "int1" THEN "one" ELSE x
-\* ... after rounding to float32 (only 0.1 is not a float32 among the float32 names)
-R32(x)   == IF x = "d0.1" THEN "s0.1" ELSE Canon(x)
+\* ... after rounding to float32 (0.1, 1/3 and 2^24 + 1 are not float32 values)
+R32(x)   == CASE x = "d0.1" -> "s0.1" [] x = "d3rd" -> "s3rd" [] x = "f16m1" -> "f16m" [] OTHER -> Canon(x)
 \* the identity of a leaf as a value of primitive type k (what a Python set / dict key / == sees, and, for
 \* float32, what survives the 4-byte representation); "negzero" and "zero" are one key for Python
 KeyOf(k, x) == LET y == IF k = "float32" THEN R32(x) ELSE Canon(x) IN IF y = "negzero" THEN "zero" ELSE y
@@ -178,6 +205,7 @@ Vals(t, b) ==
       small(u) == Opt(Vals(u, 0))
   IN
   CASE t.k \in Prims -> {Leaf(x) : x \in IF b >= 1 THEN Full(t.k) ELSE Rep(t.k)}
+    [] t.k = "locus" -> IF b >= 1 THEN LocFull ELSE LocRep
     [] t.k = "array" ->
          IF b = 0 THEN {VArr(<<>>)} \cup {VArr(<<x, NA>>) : x \in Vals(t.e, 0)}
          ELSE {VArr(<<>>)} \cup {VArr(<<x>>) : x \in sub(t.e)}
@@ -223,6 +251,7 @@ RECURSIVE Key(_, _)
 Key(t, v) ==
   IF v.c = "na" THEN v
   ELSE CASE t.k \in Prims            -> Leaf(KeyOf(t.k, v.x))
+         [] t.k = "locus"            -> v
          [] t.k = "array"            -> VArr([i \in 1 .. Len(v.xs) |-> Key(t.e, v.xs[i])])
          [] t.k = "set"              -> [c |-> "set", S |-> {Key(t.e, v.xs[i]) : i \in 1 .. Len(v.xs)}]
          [] t.k = "dict"             -> [c |-> "dict", S |-> {<<Key(t.key, v.kv[i].k), Key(t.val, v.kv[i].v)>> : i \in 1 .. Len(v.kv)}]
@@ -234,6 +263,8 @@ RECURSIVE WellTyped(_, _)
 WellTyped(t, v) ==
   \/ v = NA
   \/ CASE t.k \in Prims -> v.c = "p" /\ v.x \in Full(t.k)
+       [] t.k = "locus" -> /\ v.c = "loc" /\ DOMAIN v = {"c", "contig", "pos"} /\ v.contig \in Contigs
+                           /\ v.pos \in 1 .. ContigLen(IF v.contig \in Contigs THEN v.contig ELSE "cm")
        [] t.k = "array" -> v.c = "arr" /\ \A i \in 1 .. Len(v.xs) : WellTyped(t.e, v.xs[i])
        [] t.k = "set"   -> /\ v.c = "set" /\ \A i \in 1 .. Len(v.xs) : WellTyped(t.e, v.xs[i])
                            /\ Distinct([i \in 1 .. Len(v.xs) |-> Key(t.e, v.xs[i])])
@@ -267,6 +298,8 @@ Match(t, v, w) ==
   ELSE IF w.c = "na" THEN FALSE
   ELSE
   CASE t.k \in Prims -> LeafEq(t.k, v.x, w)
+    \* a decoded locus is reported as [c |-> "loc", rg |-> genome of the OBJECT, contig, pos]
+    [] t.k = "locus" -> w.c = "loc" /\ w.rg = t.rg /\ w.contig = v.contig /\ w.pos = v.pos
     [] t.k = "array" -> /\ w.c = "arr" /\ Len(w.xs) = Len(v.xs)
                         /\ \A i \in 1 .. Len(v.xs) : Match(t.e, v.xs[i], w.xs[i])
     [] t.k = "set"   -> /\ w.c = "set" /\ Len(w.xs) = Len(v.xs)
@@ -294,6 +327,7 @@ RECURSIVE Echo(_, _)
 Echo(t, v) ==
   IF v.c = "na" THEN v
   ELSE CASE t.k \in Prims  -> Echo1(t.k, v.x)
+         [] t.k = "locus"  -> [c |-> "loc", rg |-> t.rg, contig |-> v.contig, pos |-> v.pos]
          [] t.k = "array"  -> VArr([i \in 1 .. Len(v.xs) |-> Echo(t.e, v.xs[i])])
          [] t.k = "set"    -> VSet(Reverse([i \in 1 .. Len(v.xs) |-> Echo(t.e, v.xs[i])]))     \* any order
          [] t.k = "dict"   -> VDict(Reverse([i \in 1 .. Len(v.kv) |-> [k |-> Echo(t.key, v.kv[i].k), v |-> Echo(t.val, v.kv[i].v)]]))
@@ -305,7 +339,8 @@ Echo(t, v) ==
 
 (* ------------------------------------------------------------------------------------------------ *)
 (* The universe of types                                                                             *)
-D0 == {P(k) : k \in Prims}
+LocT == TLoc("vrg")
+D0 == {P(k) : k \in Prims} \cup {LocT}
 Wide9 == <<P("int32"), P("str"), P("bool"), P("float64"), P("call"), P("int64"), P("float32"), P("int32"), P("str")>>
 Names9 == <<"a", "b", "sp", "uni", "num", "empty", "key", "value", "start">>
 
@@ -342,11 +377,26 @@ T1Mid  == Over(D0, K2) \cup NdTypes \cup Special
 \* quick tier: one depth-1 type of every kind is wrapped once more
 T1Tiny == {TArr(P("float64")), TArr(P("call")), TSet(P("str")), TDict(P("str"), P("float64")), TDict(P("int32"), P("str")),
            TTup(<<>>), TTup(<<P("float64"), P("str")>>), TStruct(<<>>, <<>>), TStruct(<<"a">>, <<P("float64")>>),
-           TStruct(<<"sp", "uni">>, <<P("bool"), P("int64")>>), TIv(P("float64")), TIv(P("int32"))}
+           TStruct(<<"sp", "uni">>, <<P("bool"), P("int64")>>), TIv(P("float64")), TIv(P("int32")), TIv(LocT)}
           \cup {t \in NdTypes : t.e.k = "float64" /\ t.n = 2}
 T1 == IF Level = 0 THEN T1Mid ELSE T1Full
 T2 == IF Level = 0 THEN Over2(T1Tiny) ELSE Over2(T1Mid)
-CoreTypes == D0 \cup T1 \cup T2
+\* named combinations of the second build (both tiers): loci below containers, struct / tuple dict keys, sets of arrays
+Named2 == {TDict(LocT, TArr(P("call"))), TArr(TStruct(<<"a", "b">>, <<LocT, P("str")>>)), TSet(TIv(LocT)),
+           TDict(TStruct(<<"a", "uni">>, <<LocT, P("str")>>), P("int64")), TDict(TTup(<<P("str"), LocT>>), P("float32")),
+           TSet(TArr(LocT)), TSet(TArr(P("int64"))), TTup(<<LocT, TIv(P("int32")), TNd(P("int32"), 2)>>)}
+\* thorough tier: one level deeper than the depth-2 grammar (budget 0 at the innermost level)
+Deep3 == {TArr(TStruct(<<"a", "b">>, <<LocT, TIv(LocT)>>)),
+          TDict(TStruct(<<"a", "uni">>, <<LocT, P("str")>>), TSet(TArr(P("int64")))),
+          TDict(TTup(<<P("int32"), TIv(P("int32"))>>), TArr(TDict(P("str"), P("float32")))),
+          TSet(TArr(TIv(LocT))),
+          TTup(<<TArr(TNd(P("float64"), 2)), TDict(P("str"), TArr(LocT))>>),
+          TIv(TStruct(<<"start", "key">>, <<TArr(LocT), TSet(P("str"))>>)),
+          TArr(TDict(LocT, TArr(P("call")))),
+          TStruct(<<"value", "sp">>, <<TDict(TIv(P("int32")), TSet(P("call"))), TArr(TArr(P("float32")))>>),
+          TSet(TDict(P("str"), TArr(P("bool"))))}
+MaxDepth  == IF Level = 0 THEN 2 ELSE 3
+CoreTypes == D0 \cup T1 \cup T2 \cup Named2 \cup (IF Level = 0 THEN {} ELSE Deep3)
 
 \* NOTE for TLC: zero-arity constant definitions are evaluated when the module is loaded, by every module that
 \* extends this one; everything expensive or with side effects therefore takes a dummy argument.
@@ -367,8 +417,11 @@ Gen(u) == /\ \A t \in ExtraTypes(u) : IsType(t) /\ Depth(t) <= 2
 (*     unless both stand for the same value (Key).                                                    *)
 SelfTypes == D0 \cup T1
 SelfCheck(dummy) ==
-  /\ \A t \in CoreTypes : IsType(t) /\ Depth(t) <= 2
-  /\ \A t \in SelfTypes : \A v \in Opt(Vals(t, 2)) : WellTyped(t, v) /\ Match(t, v, Echo(t, v))
+  /\ \A t \in CoreTypes : IsType(t) /\ Depth(t) <= MaxDepth
+  /\ \A t \in Named2 : Depth(t) = 2
+  /\ Level = 0 \/ \A t \in Deep3 : Depth(t) = 3
+  /\ \A t \in SelfTypes \cup Named2 \cup (IF Level = 0 THEN {} ELSE Deep3) :
+        \A v \in Opt(Vals(t, 2)) : WellTyped(t, v) /\ Match(t, v, Echo(t, v))
   /\ \A t \in {u \in SelfTypes : ~HasNd(u)} : \A v \in Opt(Vals(t, 1)) : \A u \in Opt(Vals(t, 1)) :
         Match(t, v, Echo(t, u)) => Key(t, u) = Key(t, v)
   /\ PrintT(<<"selfcheck", Cardinality(CoreTypes), Cardinality(SelfTypes)>>)
@@ -378,7 +431,7 @@ SelfCheck(dummy) ==
 (*                   err      "" or "<stage>: <exception>"  (stage: to / from)                        *)
 (*                   w        the decoded value as a tree (NA when err # "")                            *)
 Why(x) ==
-  IF ~(IsType(x.t) /\ IF IsType(x.t) THEN Depth(x.t) <= 2 /\ WellTyped(x.t, x.v) ELSE FALSE) THEN "not-in-universe"
+  IF ~(IsType(x.t) /\ IF IsType(x.t) THEN Depth(x.t) <= MaxDepth /\ WellTyped(x.t, x.v) ELSE FALSE) THEN "not-in-universe"
   ELSE IF x.err # "" THEN "raised"
   ELSE IF ~Ok(x.t, x.v, x.w) THEN "differs"
   ELSE ""
@@ -390,5 +443,6 @@ Verdict(u) ==
              [n      |-> Len(cases),
               ok     |-> Len(cases) - Cardinality(bad),
               nested |-> Cardinality({i \in 1 .. Len(cases) : IF IsType(cases[i].t) THEN Depth(cases[i].t) = 2 ELSE FALSE}),
+              deep   |-> Cardinality({i \in 1 .. Len(cases) : IF IsType(cases[i].t) THEN Depth(cases[i].t) = 3 ELSE FALSE}),
               bad    |-> SetToSeq({[i |-> i, why |-> why[i]] : i \in bad})])
 =============================================================================
